@@ -17,6 +17,9 @@ const BASES: &[Base] = &[
     Base { html: "<svg><g x=1>t</g></svg><u>w</u><!--c-->", target: "g", inner_textctx: true },
     Base { html: "<textarea>a</textarea><style>b</style>x<!--c-->", target: "textarea", inner_textctx: true },
     Base { html: "<a href='u' HREF=v>l</a><br><!--c-->", target: "a", inner_textctx: true },
+    // self-closing foreign elements whose last attribute is unquoted and ends in a quote character
+    Base { html: "<svg><path id=\"q\" class=k d=M0,0' /><rect x=1 y=6\" /></svg><u>w</u><!--c-->", target: "path", inner_textctx: false },
+    Base { html: "<math><mspace id=m href=a\"b' /><mi x=\"1\" data-x=v />t</math><!--c-->", target: "mspace", inner_textctx: false },
 ];
 
 /// a fixed small pool of adversarial argument strings (used by the robustness job)
@@ -71,7 +74,7 @@ pub fn job_c08(out_dir: &str, tier: &str, seed: u64) {
                 14 => (el(json!([{"op":"set_name","a":[s]}])), "set_name", s.clone(), String::new(), true),
                 _ => { let name = format!("x{}", s.replace(|c: char| !c.is_ascii_alphanumeric() && c != '-', "")); (el(json!([{"op":"set_name","a":[name]}])), "set_name", name, String::new(), true) }
             };
-            let enc = if k == per - 1 && si % 7 == 0 { "windows-1252" } else { "utf-8" };
+            let enc = if k == per - 1 && si % 7 == 0 { "windows-1252" } else if k == per - 2 && si % 5 == 0 { *rng.pick(&["shift_jis", "windows-1251", "euc-kr"]) } else { "utf-8" };
             let cfg = crate::gen::merge(&cfg, &json!({"enc": enc}));
             let tl = driver::run(&cfg, input, &[], &RunOpts::default());
             // result of the validated call ("ok" / "err:..."); text insertions cannot be rejected
@@ -91,11 +94,22 @@ pub fn job_c08(out_dir: &str, tier: &str, seed: u64) {
                 continue;
             }
             if res == "err" { rejected += 1; }
-            // in a legacy encoding only ASCII arguments are compared byte-wise (C13 decides the encoding of the rest)
-            if enc != "utf-8" && !(arg.is_ascii() && arg2.is_ascii()) && res == "ok" { continue; }
+            // in a legacy encoding a non-ASCII argument is compared through a witnessed per-character encoder
+            // (encoding_rs: the character's bytes, or its numeric character reference when unmappable); only the
+            // text API is judged that way (C13 decides the encoding of names and values)
+            let legacy_non_ascii = enc != "utf-8" && !(arg.is_ascii() && arg2.is_ascii());
+            if legacy_non_ascii && res == "ok" && api != "text" { continue; }
             n += 1;
-            let rec = json!({"id": format!("c08-{n}"), "input": input, "output": sink_bytes(&tl), "api": api, "target": base.target.as_bytes(),
+            let mut rec = json!({"id": format!("c08-{n}"), "input": input, "output": sink_bytes(&tl), "api": api, "target": base.target.as_bytes(),
                 "arg": arg.as_bytes(), "arg2": arg2.as_bytes(), "res": res, "textctx": textctx});
+            if legacy_non_ascii && api == "text" {
+                let e = encoding_rs::Encoding::for_label(enc.as_bytes()).unwrap();
+                let mut cmap = Vec::new();
+                let mut seen = std::collections::HashSet::new();
+                for ch in arg.chars() { if seen.insert(ch) { let chs = ch.to_string(); let (b, _, _) = e.encode(&chs); cmap.push(json!([ch as u32, b.as_ref()])); } }
+                rec["argcp"] = json!(arg.chars().map(|c| c as u32).collect::<Vec<_>>());
+                rec["cmap"] = json!(cmap);
+            }
             let src = json!({"id": rec["id"], "cfg": cfg, "input": input, "cuts": [], "api": api, "arg": arg, "arg2": arg2});
             let key = format!("{}|{}|{}|{}|{}", rec["input"], rec["output"], rec["api"], rec["arg"], rec["arg2"]);
             sh.push(&rec, &src, Some(&key), true);
